@@ -138,7 +138,21 @@ func buildHistory(db objects.Store, rng *rand.Rand, o histOpts) (*history, error
 		if o.Rekey && rng.Intn(3) == 0 {
 			pk = []string{"id", "a"}
 		}
-		tsum, err := ingestRows(db, h.cols, pk, rows)
+		cols := h.cols
+		switch {
+		case i > 0 && rng.Intn(9) == 0:
+			// nothing but a column renamed: a new table made entirely of blocks that exist already
+			rows = cloneRows(h.rows[i-1])
+			cols = []string{"id", "a", fmt.Sprintf("b_renamed_%d", i)}
+		case i > 0 && rng.Intn(12) == 0 && len(h.rows[i-1]) > 255:
+			// the trailing block dropped: again no new block
+			rows = cloneRows(h.rows[i-1])
+			sort.Slice(rows, func(a, b int) bool { return rows[a][0] < rows[b][0] })
+			rows = rows[:255*((len(rows)-1)/255)]
+		case rng.Intn(14) == 0:
+			rows = nil // a header-only table
+		}
+		tsum, err := ingestRows(db, cols, pk, rows)
 		if err != nil {
 			return nil, err
 		}
